@@ -96,7 +96,7 @@ Definition resolve_index (item : value) (len : Z) : res (option Z) :=
   end.
 
 (* get_item on arrays and strings; maps are modelled in Model/Order.v; every other receiver
-   yields Undefined *)
+   yields Undefined for a string/integer index and an error otherwise (commit of D15) *)
 Definition get_item_seq (v item : value) : res value :=
   match v with
   | VArr l =>
@@ -112,7 +112,12 @@ Definition get_item_seq (v item : value) : res value :=
         | None => ROk VUndef
         end)
   | VMap _ => RErr ErrOther
-  | _ => ROk VUndef
+  | _ =>
+      (* nothing to look up in a scalar, but the index must still be a string or an integer *)
+      match item with
+      | VStr _ _ | VInt _ _ => ROk VUndef
+      | _ => RErr ErrMsg
+      end
   end.
 
 Definition vm_subscript (optional : bool) (val sub : value) : res value :=
